@@ -12,7 +12,7 @@ sed -e "s#@REPO@#$REPO#g" -e "s#@VERIF@#$VERIF#g" "$VERIF/miri/Cargo.toml.in" > 
 cmp -s "$WS/Cargo.toml.new" "$WS/Cargo.toml" 2>/dev/null || mv "$WS/Cargo.toml.new" "$WS/Cargo.toml"; rm -f "$WS/Cargo.toml.new"
 [ -f "$WS/Cargo.lock" ] || cp "$REPO/Cargo.lock" "$WS/Cargo.lock"
 BASEFLAGS="-Zmiri-ignore-leaks -Zmiri-disable-isolation"
-PROGRAMS="sync_borrow try_sync_borrow future_sync_borrow_drop_mid drop_running drop_suspended drop_from_job pipe_in_drop nested_sync future_await sync_while_parked_in_drain drop_self_waking late_waker_after_drop future_sync_panics"
+PROGRAMS="sync_borrow try_sync_borrow future_sync_borrow_drop_mid drop_running drop_suspended drop_from_job pipe_in_drop nested_sync future_await sync_while_parked_in_drain drop_self_waking late_waker_after_drop future_sync_panics sync_steal_pool0 sync_panics_pool0 pipe_out_drop_mid"
 VROOT="${DESIM_VERIF_ROOT:-$VERIF}"
 
 miri_run() { # program flags -> output on stdout
@@ -64,8 +64,8 @@ PY
           VIOL_FILES="$VIOL_FILES $F"; UB=$((UB+1)); break
         fi
       done
-    elif grep -qE "error: deadlock|error:" "$LOG" || { [ "$P" != "future_sync_panics" ] && grep -q "panicked at" "$LOG"; }; then
-      # (future_sync_panics panics on purpose and catches it)
+    elif grep -qE "error: deadlock|error:" "$LOG" || { [ "$P" != "future_sync_panics" ] && [ "$P" != "sync_panics_pool0" ] && grep -q "panicked at" "$LOG"; }; then
+      # (future_sync_panics and sync_panics_pool0 panic on purpose and catch it)
       OTHER=$((OTHER+1))
     fi
   done
